@@ -80,6 +80,12 @@ def templates(rnd):
                 [["solve_order", F("a"), F("b")],
                  ["if", ["bin", "Eq", F("a"), ["enumlit", "E0", 0]], [["expr", ["bin", "Eq", F("b"), ["lit", 4]]]], [], [["expr", ["bin", "Ne", F("b"), ["lit", 4]]]]]],
                 {"a": [0, 1]}, {"enums": {"E0": [3, 7]}}))      # (enum fields are observed by enumerator index)
+    # T13: a vsc list as the EARLIER argument: every element is chosen before a, whatever the number of values of a that
+    # accompany the choice (a <= 16 * min(l): 1 .. 49 completions); the list is judged as a whole (16 tuples)
+    out.append(("list_first", [{"name": "l", "kind": "list", "elem": {"kind": "scalar", "w": 2, "sg": False},
+                                "rand": True, "randsz": False, "size": 2}, ("a", 6, False)],
+                [["solve_order", F("l"), F("a")], ["foreach", ["l"], [["expr", ["bin", "Le", F("a"), ["bin", "Mul", ["it"], ["lit", 16]]]]]]],
+                {"l": [(x, y) for x in range(4) for y in range(4)]}))
     return out
 
 
@@ -143,8 +149,17 @@ def run(ctx):
             continue
         names = [f["name"] for f in sc["classes"][0]["fields"]]
         before, after = first_fields([st for b in sc["classes"][0]["blocks"] if b["name"] not in sc.get("off", []) for st in b["stmts"]])
-        idb = {names.index(n) for n in before - after}
-        ida = {names.index(n) for n in after}
+        # harness ids of the leaves, in the worker's flat order: a scalar has one, a fixed-size list one per element and one for its size
+        lid, k = {}, 0
+        for f in sc["classes"][0]["fields"]:
+            if f["kind"] == "list":
+                lid[f["name"]] = set(range(k, k + f["size"]))
+                k += f["size"] + 1
+            else:
+                lid[f["name"]] = {k}
+                k += 1
+        idb = set().union(*[lid[n] for n in before - after]) if before - after else set()
+        ida = set().union(*[lid[n] for n in after]) if after else set()
         calls = [(op, r) for op, r in zip(sc["ops"], o["ops"]) if op["op"] == "randomize"]
         counts = {n: {} for n in sc["feasible"]}
         conds = {n: (n.split("|")[0], n.split("|")[1].split("=")[0], int(n.split("=")[1])) for n in counts if "|" in n}
@@ -158,14 +173,17 @@ def run(ctx):
                 core.add_violation(ctx, "a field declared to be solved first was randomised after a field declared later (template %s)" % sc["template"],
                                    {"scenario": sc["classes"], "observed": "swizzle order in the solver transcript"})
                 break
+            def val(name):
+                ids = sorted(lid[name])
+                return r["values"][ids[0]] if len(ids) == 1 else tuple(r["values"][i] for i in ids)
             for n in counts:
                 if n in conds:
                     fld, cf, cv = conds[n]
-                    if r["values"][names.index(cf)] != cv:
+                    if val(cf) != cv:
                         continue
-                    v = r["values"][names.index(fld)]
+                    v = val(fld)
                 else:
-                    v = r["values"][names.index(n)]
+                    v = val(n)
                 counts[n][v] = counts[n].get(v, 0) + 1
         # frequency support: every feasible value of a first-solved field appears, with a frequency within 6.1 sigma of uniform
         for n, c in counts.items():
@@ -196,7 +214,7 @@ def run(ctx):
     ctx.coverage.update({
         "evaluations": evals,
         "distinct_nontrivial": len({repr(s["classes"]) for s in scs}),
-        "rule": "twelve templates (an enum-typed first field; a third unnamed field in the ordered rand set; a list as the later argument of a total order; two alternative blocks with opposite orderings, one switched off; implication, b <= a, narrowed range, signed first variable, chain a->b->c, list of first variables, "
+        "rule": "thirteen templates (a vsc list as the earlier argument, judged as a whole; an enum-typed first field; a third unnamed field in the ordered rand set; a list as the later argument of a total order; two alternative blocks with opposite orderings, one switched off; implication, b <= a, narrowed range, signed first variable, chain a->b->c, list of first variables, "
                 "the chain with the last variable mentioned first - b judged given a = 0 -, a vsc list as the later argument) "
                 "with seeded parameters, each randomised %d times from a fixed RandState; per call: normal return, swizzle order "
                 "in the solver transcript (no slice of a first-solved field after a slice of a later one); per template: histogram "
@@ -204,7 +222,7 @@ def run(ctx):
                 "oracle on the first calls" % ncalls,
         "samples": [{"template": s["template"], "stmts": s["classes"][0]["blocks"][0]["stmts"]} for s in scs[:2]],
         "exhaustive": False,
-        "histograms": hist_out[:12],
+        "histograms": hist_out[:20],
         "correspondence_mismatches": len(ctx.tie_broken),
     })
     ctx.assumptions += [
